@@ -363,9 +363,6 @@ class World:
         r = self.graveyard[op["k"] % len(self.graveyard)]
         if r.model is not None:
             return "skipped:already-back"
-        if "readd-stale-gene-undo" in self.known and self.depth() and {g.id for g in r.genes} != set(r.gpr.genes):
-            self._count_excluded("readd-stale-gene-undo")
-            return "skipped:known-readd-stale-gene-undo"
         self.model.add_reactions([r])
 
     def op_add_metabolites(self, op):
@@ -832,3 +829,43 @@ def replay(world: World, ops: List[Dict[str, Any]], after_step=None):
         out = world.apply(clean)
         if after_step:
             after_step(world, clean, out)
+
+
+# ------------------------------------------------------------------------------------------
+# small-scope enumeration: all ordered pairs of concrete op instances
+# ------------------------------------------------------------------------------------------
+def concrete_instances(seed: int, names: List[str], per_name: int = 3):
+    """Deterministic concrete instances of every op (drawn once from the strategies with a fixed seed)."""
+    import hypothesis
+    from hypothesis import HealthCheck, given, settings
+
+    out: Dict[str, List[Dict[str, Any]]] = {}
+
+    for name in names:
+        got: List[Dict[str, Any]] = []
+
+        @hypothesis.seed(seed * 7919 + sum(map(ord, name)))
+        @settings(max_examples=per_name * 4, database=None, deadline=None, suppress_health_check=list(HealthCheck),
+                  phases=[hypothesis.Phase.generate])
+        @given(OPS[name])
+        def grab(op):
+            if len(got) < per_name and op not in got:
+                got.append(op)
+
+        grab()
+        out[name] = got
+    return out
+
+
+def pair_cases(seed: int, specs_list: List[Dict[str, Any]], names: List[str], in_block: bool, per_name: int = 3, prefix=()):
+    """All ordered pairs (a, b) of concrete op instances, on every given model spec; inside one block (C03) or as a plain
+    history (C01). `prefix` ops run first (e.g. an add_cons so that user constraints exist)."""
+    inst = concrete_instances(seed, names, per_name)
+    flat = [op for n in names for op in inst[n]]
+    for spec in specs_list:
+        for a in flat:
+            for b in flat:
+                if in_block:
+                    yield {"spec": spec, "path": "bulk", "ops": [*prefix, {"op": "block", "ops": [a, b], "fault": None, "propagate": False}]}
+                else:
+                    yield {"spec": spec, "path": "bulk", "ops": [*prefix, a, b]}
